@@ -755,8 +755,50 @@ func solverStage(r *ev.Run, full bool) {
 				r.Violation("LeastSquares3", fmt.Sprintf("rows %v rhs %v: x=%v leaves A^T(Ax-b) = %g", a, b[:len(l)], x, worst), mcase{Kernel: "LeastSquares3", Matrix: am, Args: b[:len(l)]})
 			}
 			r.NontrivialAdd(1)
+			// ridge form: (A^T A + lambda I) x = A^T b
+			for _, lam := range []float64{0.5, 3} {
+				r.Eval(1)
+				x := numerical.LeastSquaresReg3(a, b[:len(l)], lam, 1e-8)
+				worst := 0.0
+				for d := 0; d < 3; d++ {
+					s := lam * x[d]
+					for i := range a {
+						s += a[i][d] * (a[i].Dot(x) - b[i])
+					}
+					worst = math.Max(worst, math.Abs(s))
+				}
+				if !(worst <= 1e-8*(sv[0]+lam)/(sv[2]+lam)) {
+					r.Violation("LeastSquaresReg3", fmt.Sprintf("rows %v rhs %v lambda %g: x=%v leaves (A^T A + lambda) x - A^T b = %g", a, b[:len(l)], lam, x, worst), mcase{Kernel: "LeastSquaresReg3", Matrix: am, Args: append([]float64{lam}, b[:len(l)]...)})
+				}
+			}
 		}
 	})
+	// the ridge term makes rank-deficient systems (one or two rows, repeated rows) well posed
+	for _, l := range [][]int{{0}, {4}, {3, 3}, {0, 3}, {4, 5}, {5, 5, 5}} {
+		a := make([]numerical.Vec3, len(l))
+		am := make(mat, len(l))
+		for i, k := range l {
+			a[i] = rows[k]
+			am[i] = rows[k][:]
+		}
+		for _, b := range rhs {
+			for _, lam := range []float64{0.5, 3} {
+				r.Eval(1)
+				x := numerical.LeastSquaresReg3(a, b[:len(l)], lam, 1e-8)
+				worst := 0.0
+				for d := 0; d < 3; d++ {
+					s := lam * x[d]
+					for i := range a {
+						s += a[i][d] * (a[i].Dot(x) - b[i])
+					}
+					worst = math.Max(worst, math.Abs(s))
+				}
+				if !(worst <= 1e-7) {
+					r.Violation("LeastSquaresReg3", fmt.Sprintf("rank-deficient rows %v rhs %v lambda %g: x=%v leaves (A^T A + lambda) x - A^T b = %g", a, b[:len(l)], lam, x, worst), mcase{Kernel: "LeastSquaresReg3", Matrix: am, Args: append([]float64{lam}, b[:len(l)]...)})
+				}
+			}
+		}
+	}
 	// every graph on n <= 5 nodes: A = Laplacian + I (SPD)
 	for n := 2; n <= 5; n++ {
 		pairs := n * (n - 1) / 2
@@ -820,6 +862,41 @@ func solverStage(r *ev.Run, full bool) {
 					for i := range y {
 						if !(y[i].Dist(yy[i]) <= 1e-9*scale*10) {
 							r.Violation("SparseCholesky/Apply", fmt.Sprintf("graph mask %b on %d nodes: L L^T b differs from A b", mask, n), c)
+							break
+						}
+					}
+					// the two-column forms, against the dense matrix itself
+					b2 := make([]numerical.Vec2, n)
+					b2[bi] = numerical.Vec2{1, -2}
+					if bi+1 < n {
+						b2[bi+1] = numerical.Vec2{0.25, 3}
+					}
+					dense := func(v []numerical.Vec2) []numerical.Vec2 {
+						out := make([]numerical.Vec2, n)
+						for i := 0; i < n; i++ {
+							for j := 0; j < n; j++ {
+								out[i] = out[i].Add(v[j].Scale(scale * a[idx(i)][idx(j)]))
+							}
+						}
+						return out
+					}
+					x2 := ch.ApplyInverseVec2(b2)
+					for i, w := range dense(x2) {
+						if !(w.Dist(b2[i]) <= 1e-9) {
+							r.Violation("SparseCholesky/ApplyInverseVec2", fmt.Sprintf("graph mask %b on %d nodes (reversed=%v), rhs at %d: A x differs from b by %g", mask, n, rev, bi, w.Dist(b2[i])), c)
+							break
+						}
+					}
+					ab := dense(b2)
+					for i, w := range ch.ApplyVec2(b2) {
+						if !(w.Dist(ab[i]) <= 1e-9*scale*10) {
+							r.Violation("SparseCholesky/ApplyVec2", fmt.Sprintf("graph mask %b on %d nodes: L L^T b differs from A b", mask, n), c)
+							break
+						}
+					}
+					for i, w := range sm.ApplyVec2(b2) {
+						if !(w.Dist(ab[i]) <= 1e-12*scale*10) {
+							r.Violation("SparseMatrix/ApplyVec2", fmt.Sprintf("graph mask %b on %d nodes: the sparse product differs from the dense one", mask, n), c)
 							break
 						}
 					}
